@@ -123,6 +123,11 @@ def gen_chain(rng, opts=None):
             spec["build"] = ("d", {"out.o": ("f", b"obj")})
             spec["src"][1]["build"] = ("d", {"gen.c": ("f", b"gen\n"), "deep": ("d", {"more.py": ("f", b"m")})})
         common["normalize_line_endings"] = rng.random() < 0.4
+        if rng.random() < 0.35:
+            # prefix stripping: only the FIRST matching prefix is removed (checkout/vendor/x.c -> vendor/x.c)
+            spec["checkout"] = ("d", {"vendor": ("d", {"x.c": ("f", b"x")}), "app.c": ("f", b"app")})
+            spec["vendor"] = ("d", {"y.c": ("f", b"y")})
+            common["lstrip_paths"] = rng.choice([["checkout/", "vendor/"], ["vendor/", "checkout/"], ["checkout/"]])
     files = regular_files(spec)
     for i in range(nsteps):
         ops = gen_ops(rng, files)
